@@ -161,7 +161,7 @@ pub fn check_c16(c: &Concrete, hash_seeds: &[u64]) -> (Vec<Violation>, Outcome, 
         }
         // ... and after a compilation of the same sources whose sink failed half-way
         let mut failing = c2.clone();
-        failing.sink = SinkPlan::FailAt { call: 1, kind: "Other".into() };
+        failing.sink = SinkPlan::FailAt { call: 0, kind: "Other".into() };
         let _ = execute(&failing);
         execute(&c2).observation()
     });
